@@ -76,7 +76,7 @@ var randLits = []string{
 	"0", "1", "2", "3", "4", "5", "7", "8", "10", "16", "31", "63", "64", "100", "255", "1000", "65536",
 	"123456789", "9007199254740993", "9223372036854775807", "18446744073709551616", "1000000000000000000",
 	"0.5", "0.25", "3.25", "123.456", "0.1", "2.50", "10.0", "0.000000001", "1.5", "2.5", "0.0",
-	"0x0", "0x1", "0x1BC", "0xff", "0xFF", "0x10", "0x7fffffffffffffff", "0xdeadBEEF",
+	"0x0", "0x1", "0x1BC", "0xff", "0xFF", "0x10", "0x7fffffffffffffff", "0xdeadBEEF", "0x1e", "0xE", "0xfe", "0x2E", "0xbe",
 	"0b0", "0b1", "0b1101", "0b11111111", "0b10",
 }
 
